@@ -777,7 +777,7 @@ void vf_watch_end(void)
 	atomic_fetch_add(&g_wd.epoch, 1);
 }
 
-void vf_wait_counter(_Atomic uint64_t *ctr, uint64_t target, const char *ctx)
+void vf_wait_counter_impl(_Atomic uint64_t *ctr, uint64_t target, const char *ctx)
 {
 	vf_watch_begin(ctx, 0);
 	unsigned spins = 0;
